@@ -316,7 +316,7 @@ Definition witness_differs (p : ctor * slot) : bool :=
 Definition raising_pair (p : ctor * slot) : bool :=
   match p with
   | (KQuery, S__with) | (KClickHouse, S__with) => c_with_by_call tcfg && negb (c_with_ok tcfg)
-  | (KJoin, S_item) => c_join_by_call tcfg && negb (c_item_ok tcfg)
+  | (KJoin, S_item) => match c_src_mode tcfg KJoin with MCall => negb (c_item_ok tcfg) | _ => false end
   | _ => false
   end.
 Definition witness_agrees (p : ctor * slot) : bool :=
